@@ -108,6 +108,15 @@ NOT_CLAIMED = {
 }
 
 
+STALE_ON_HEAD = ('C08_r10a', 'C08_r11p', 'C08_r4y', 'C13_r8f', 'C14_r7e')
+
+
+def base_commit(sid):
+    """the /repo commit the change was written against (tools/seedrun.py builds its scratch worktree there when the patch no longer
+    applies on HEAD): rounds 1-12 precede fix 779fc27, which rewrote CompiledTemplateManager.get_or_compile"""
+    return '779fc27' if sid.endswith('_r13u') else 'e2a4af4'
+
+
 def from_notes(d):
     """(change, needs) taken from the seeder's own notes.md when no hand-written description exists"""
     import re
@@ -159,6 +168,9 @@ def main(argv):
             # no new result for this change in the given directories: its meta.json (written from an earlier validation) stays
             try:
                 old = json.load(open(mp))
+                if 'base_commit' not in old:
+                    old['base_commit'] = base_commit(sid)
+                    json.dump(old, open(mp, 'w'), indent=1)
                 rows.append((sid, old.get('change', ''), old.get('needs_to_manifest', ''), old.get('ran', {})))
                 continue
             except Exception:
@@ -167,6 +179,7 @@ def main(argv):
         if not what:
             what, needs = from_notes(d)
         meta = dict(id=sid, property=sid[:3], change=what, needs_to_manifest=needs,
+                    base_commit=base_commit(sid),
                     produced_by='fresh sub-agent given only the property text and its own scratch worktree',
                     files=['patch.diff', 'demo.py', 'notes.md'])
         ran = {}
@@ -194,6 +207,9 @@ def main(argv):
         fh.write('Each change was written by a fresh sub-agent that saw only the property text; each keeps the repository\'s\n'
                  '45 tests green. "first pass" = whether the property\'s own check (quick tier) caught it before any\n'
                  'strengthening; "caught by" = quick-tier checks reporting VIOLATION now (`tools/seedmatrix.sh`).\n\n')
+        fh.write('Patches apply on the /repo commit named as `base_commit` in their meta.json (rounds 1-12: e2a4af4, round 13: 779fc27). After fix '
+                 '779fc27 rewrote `CompiledTemplateManager.get_or_compile`, these no longer apply on HEAD and are run on their base commit: '
+                 + ', '.join(STALE_ON_HEAD) + '.\n\n')
         fh.write('| id | change | needs | first pass | caught by (quick) |\n|----|--------|-------|-----------|-------------------|\n')
         for sid, what, needs, ran in rows:
             fh.write('| %s | %s | %s | %s | %s |\n' % (sid, what, needs, ran.get('target_check_first_pass', '-').split(' ')[0],
